@@ -487,9 +487,21 @@ pub async fn run_local_idle() {
             r2.put((sim::now_us(), format!("{:?}", r)));
         });
     }
+    // fault: the endpoint's connection engine is not scheduled for longer than the time-out while the
+    // frames keep arriving in time: they wait in the stream, and when the engine runs again it finds
+    // that nothing is late
+    let stall_at: Option<usize> = if choice(3) == 0 { Some(choice(gaps.len() as u32) as usize) } else { None };
+    let mut stall_until_us = 0u64;
+    sim::append_config(&format!(" engine-stalled-at-gap={:?}", stall_at));
     // phase 1: frames keep arriving in time
     let mut last_frame_us = sim::now_us();
     for (i, g) in gaps.iter().enumerate() {
+        if stall_at == Some(i) {
+            let dur = t_ms as u64 * pick(&[12u64, 20, 35]) / 10;
+            sim::stall_task("connection-engine", if client_side { 1 } else { 2 }, dur);
+            stall_until_us = sim::now_us() + dur * 1000;
+            sim::probe("engine-stalled-longer-than-the-time-out-while-frames-arrive");
+        }
         let mut g = *g;
         if near && i + 1 == gaps.len() {
             g = t_ms as u64 - (t_ms as u64 / 50).max(2); // T - delta
@@ -499,6 +511,19 @@ pub async fn run_local_idle() {
             sim::violation(
                 "idle-time-out-while-frames-arrive",
                 format!("the connection ended ({}) at t={} us although frames arrived with gaps {:?} ms below the time-out of {} ms", r, at, &gaps[..=i], t_ms),
+            );
+            return;
+        }
+        peer.send_empty().await;
+        last_frame_us = sim::now_us();
+    }
+    // the stall ends before the silence begins
+    while sim::now_us() < stall_until_us + 2_000 {
+        sim::sleep_ms(((stall_until_us + 2_000 - sim::now_us()) / 1000).clamp(1, t_ms as u64 / 2)).await;
+        if let Some((at, r)) = result.try_take() {
+            sim::violation(
+                "idle-time-out-while-frames-arrive",
+                format!("the connection ended ({}) at t={} us although frames kept arriving in time (the engine had been stalled until t={} us; time-out {} ms)", r, at, stall_until_us, t_ms),
             );
             return;
         }
